@@ -159,8 +159,74 @@ def rule_seed(ctx, tu):
     ctx.floor(R, 5)
 
 
+def rule_gsd(ctx, tu):
+    """GenerateStochasticDistribution: the target total is the floor of the real-valued total; a molecule is removed
+    only from an entry that still holds one"""
+    from . import c02
+    from ..poly import Rat
+    f = tu.fn("GenerateStochasticDistribution")
+    R = "C14.FLOOR"
+    floors = []
+    for s_ in cxa.all_stores(f.body):
+        if s_.base and s_.base[0] == "var" and s_.rhs is not None:
+            cp = call_parts(strip(s_.rhs, casts=True))
+            if cp and cp[0] == "floor" and cxfe.subscript(s_.target) is not None and s_.op == "=":
+                floors.append((s_, cp[2][0]))
+    tot = [x for x in floors if cxa.canon(x[0].target).split("[")[0].startswith("tot_species")]
+    ctx.need(len(tot) == 1, R, "GenerateStochasticDistribution: flooring of the species totals not found")
+    s_, arg = tot[0]
+    got = c02.expr_rat(arg, {})
+    ctx.check(got.equals(Rat.sym(cxa.canon(s_.target))), R, s_.node, f.qual, text(s_.node), "target total = floor(real-valued total)",
+              "the target total is floor(%r), not the floor of the real-valued total: fractional totals are rounded up"
+              % (got,))
+    # the totals are sums over all cells of the entries of that species
+    sums = [x for x in cxa.all_stores(f.body) if x.op == "+=" and x.base and x.base[1].startswith("tot")]
+    ctx.check(len(sums) == 2, R, f.node, f.qual, "totals accumulated by += over cells (real state, drawn state)", "", "")
+    R = "C14.NONNEG"
+    recs = []
+
+    def on_atom(node, facts):
+        for x in walk(node):
+            for s2 in cxa.stores_of_node(x):
+                if s2.base and s2.base[0] == "var" and s2.base[1].startswith("mesh_x_sto") and cxfe.subscript(s2.target) is not None:
+                    recs.append((s2, frozenset(facts)))
+    cxa.canon_facts(f.body, on_atom=on_atom)
+    n = 0
+    for s2, facts in recs:
+        tgt = cxa.canon(s2.target)
+        neg = None
+        if s2.op in ("--",):
+            neg = True
+        elif s2.op in ("++",):
+            neg = False
+        elif s2.op in ("+=", "-="):
+            k = None
+            r = strip(s2.rhs, casts=True)
+            try:
+                k = float(r.get("value")) if r.get("kind") in ("IntegerLiteral", "FloatingLiteral") else None
+            except Exception:
+                k = None
+            neg = None if k is None else ((k > 0) == (s2.op == "-="))
+            if k is None:
+                neg = "unknown"
+        else:
+            continue            # the initial draws (plain assignment of a non-negative sample)
+        n += 1
+        if neg is False:
+            ctx.ok(R, s2.node, f.qual, text(s2.node)[:70], "adds a molecule", nontrivial=False)
+            continue
+        ok = cxa.is_positive_fact(facts, tgt)
+        ctx.check(ok, R, s2.node, f.qual, text(s2.node)[:70], "a molecule is removed only where %s > 0" % tgt,
+                  "an entry is decreased%s without the test `%s > 0`: the processed t = 0 state can hold negative counts"
+                  % (" (by an amount of unknown sign)" if neg == "unknown" else "", tgt))
+    ctx.need(n >= 1, R, "no correction update of mesh_x_sto found")
+    ctx.floor(R, 1)
+    ctx.floor("C14.FLOOR", 2)
+
+
 def run(ctx):
     tu = ctx.cx
+    rule_gsd(ctx, tu)
     I = idxmod.Idx(tu)
     n = vlay.check_init_layouts(ctx, "C14.TRANSPOSE", tu, I, what=("mesh_x0",))
     ctx.floor("C14.TRANSPOSE", 2)
